@@ -338,7 +338,12 @@ func (r *runner) onWrite(f *hfile, p []byte) (int, error) {
 	}
 	if r.armed && r.failWrite {
 		r.failWrite = false
-		n, _ := f.File.Write(p[:r.rng.Intn(len(p))])
+		// a strict part of the record: never only the block padding behind it (see strictEnd)
+		part := 0
+		if len(p) > 10 {
+			part = r.rng.Intn(len(p) - 10)
+		}
+		n, _ := f.File.Write(p[:part])
 		r.snap("werr")
 		return n, errors.New("injected write error")
 	}
@@ -692,7 +697,6 @@ func (r *runner) primeIfCleanupAhead(from int, modelPruned int) {
 	r.out.Count("primings", 1)
 }
 
-
 // ---------------------------------------------------------------- ballast
 
 func (r *runner) writeBallast(target int) {
@@ -902,7 +906,7 @@ func (r *runner) call(i, j int, before [][]int) {
 	if ok {
 		r.checkImage(syncImg, "batch-written/whole", i, [][][]int{after})
 		if r.postSize > r.preSize {
-			cut := r.preSize + r.rng.Int63n(r.postSize-r.preSize)
+			cut := r.preSize + r.rng.Int63n(r.strictEnd()-r.preSize)
 			r.checkImage(syncImg, "batch-written/cut", i, [][][]int{before}, truncateLog(r.file, cut))
 			r.checkImage(syncImg, "batch-written/garbage-after", i, [][][]int{after}, appendBytes(r.file, r.garbage()))
 		}
@@ -965,12 +969,12 @@ func (r *runner) call(i, j int, before [][]int) {
 		case "none":
 			mods = append(mods, truncateLog(r.file, r.preSize))
 		case "torn":
-			if r.postSize-r.preSize < 2 {
+			if r.strictEnd()-r.preSize < 2 {
 				mods = append(mods, truncateLog(r.file, r.preSize))
 			} else if r.rng.Intn(2) == 0 {
-				mods = append(mods, truncateLog(r.file, r.preSize+1+r.rng.Int63n(r.postSize-r.preSize-1)))
+				mods = append(mods, truncateLog(r.file, r.preSize+1+r.rng.Int63n(r.strictEnd()-r.preSize-1)))
 			} else {
-				mods = append(mods, flipByte(r.file, r.preSize+r.rng.Int63n(r.postSize-r.preSize), byte(1<<r.rng.Intn(8))))
+				mods = append(mods, flipByte(r.file, r.preSize+r.rng.Int63n(r.strictEnd()-r.preSize), byte(1<<r.rng.Intn(8))))
 			}
 		}
 	case "werr":
@@ -1013,6 +1017,18 @@ func (r *runner) call(i, j int, before [][]int) {
 		mods = append(mods, restoreFromGrave(nil))
 	}
 	r.adopt(img, mods...)
+}
+
+// strictEnd: pebble's log writer zero-fills the rest of a 32 KiB block when fewer than 11 bytes
+// (a chunk header) are left after a record, in the same write.  So the last 10 bytes of what a
+// Flush wrote may be padding AFTER the complete record: a cut or a corruption there leaves the
+// whole batch readable (which the property allows).  Before strictEnd the record itself is hit.
+func (r *runner) strictEnd() int64 {
+	const maxPadding = 10
+	if e := r.postSize - maxPadding; e > r.preSize {
+		return e
+	}
+	return r.preSize + 1
 }
 
 func outcomeOf(first step, has map[string]int) string {
@@ -1069,14 +1085,21 @@ func (r *runner) sweep(syncImg string, stepNo int, before, after [][]int) {
 	if int64(len(orig)) != r.postSize {
 		panic("wal engine: sweep image size mismatch")
 	}
-	try := func(content []byte, ctx string, allowed [][]int) bool {
+	try := func(content []byte, ctx string, allowed ...[][]int) bool {
 		must(os.WriteFile(p, content, 0o644))
 		r.out.Count("sweep_opens", 1)
-		r.checkDisk(disk, ctx, stepNo, [][][]int{allowed})
+		r.checkDisk(disk, ctx, stepNo, allowed)
 		return !r.dead
 	}
+	// inside the record: the batch must be gone; in the (possible) block padding behind it: gone or whole
+	at := func(off int64) [][][]int {
+		if off < r.strictEnd() {
+			return [][][]int{before}
+		}
+		return [][][]int{before, after}
+	}
 	for cut := r.preSize; cut < r.postSize; cut++ {
-		if !try(orig[:cut], fmt.Sprintf("sweep/cut@+%d/%d", cut-r.preSize, r.postSize-r.preSize), before) {
+		if !try(orig[:cut], fmt.Sprintf("sweep/cut@+%d/%d", cut-r.preSize, r.postSize-r.preSize), at(cut)...) {
 			return
 		}
 	}
@@ -1088,7 +1111,7 @@ func (r *runner) sweep(syncImg string, stepNo int, before, after [][]int) {
 		for _, mask := range masks {
 			c := bytes.Clone(orig)
 			c[off] ^= mask
-			if !try(c, fmt.Sprintf("sweep/flip@+%d/%d", off-r.preSize, r.postSize-r.preSize), before) {
+			if !try(c, fmt.Sprintf("sweep/flip@+%d/%d", off-r.preSize, r.postSize-r.preSize), at(off)...) {
 				return
 			}
 		}
